@@ -28,8 +28,9 @@ MIN_NONTRIVIAL = {'quick': 40, 'thorough': 400}
 NPROC = {'quick': 4, 'thorough': 12}
 
 HEADS = ['PI_NAME', 'ORGANIZATION_NAME', 'SOURCE_DESCRIPTION', 'MISSION_NAME', 'VOLUME_INFO']
-EXTRA = ['TIME_INTERVAL', 'PI_CONTACT_INFO', 'PLATFORM', 'REVISION', 'DATA_INFO', 'LOCATION', 'R0']
-ATTRVAL = {'VOLUME_INFO': '1, 1', 'TIME_INTERVAL': '60', 'REVISION': 'R0', 'PI_NAME': 'Doe, Jane', 'R0': 'first: version'}
+EXTRA = ['TIME_INTERVAL', 'PI_CONTACT_INFO', 'PLATFORM', 'REVISION', 'DATA_INFO', 'LOCATION', 'R0', 'OTHER_COMMENTS', 'STIPULATIONS_ON_USE']
+ATTRVAL = {'VOLUME_INFO': '1, 1', 'TIME_INTERVAL': '60', 'REVISION': 'R0', 'PI_NAME': 'Doe, Jane', 'R0': 'first: version',
+           'OTHER_COMMENTS': '', 'STIPULATIONS_ON_USE': ''}
 VALS = [0., 1.5, -2.25, 1234567., 1e-20, -3.3e15, 123456789., 0.1, 1 / 3., 2 / 3., 99999995., -0.000123456749]
 CODES = [-999, -9999, -99999, -8888.5, 9999999, -9999999, -99999999, -999.25]
 
@@ -42,13 +43,14 @@ def gen(rng, tier):
         deps = []
         for i in range(rng.randint(1, 4)):
             code = rng.choice(CODES)
+            near = [code * (1 - 5e-6), code * (1 + 3e-6), code + 0.05 * (1 if abs(code) < 1e5 else 1000)]   # close to the code, different at 7 digits
             deps.append(dict(name=rng.choice(['O3', 'NO2_ppbv', 'CO', 'Alt/m', 'T']) + str(i), unit=rng.choice(['ppbv', 'm', 'K', 'molec cm-3', 'unknown']),
                              code=code, fill=rng.choice([code, code, -7777, 1e20]),
-                             vals=[rng.choice(VALS + [rng.uniform(-1, 1) * 10 ** rng.randint(-8, 8)]) for _ in range(nrec)],
+                             vals=[rng.choice(VALS + near + [rng.uniform(-1, 1) * 10 ** rng.randint(-8, 8)]) for _ in range(nrec)],
                              mask=[rng.random() < 0.25 for _ in range(nrec)]))
         attrs = rng.sample(HEADS + EXTRA, rng.randint(0, 8))
         out.append(dict(nrec=nrec, deps=deps, attrs=attrs, iunit=rng.choice(['s', 'seconds since midnight', None, 'Start_UTC']),
-                        wdate=rng.random() < 0.8))
+                        wdate=rng.random() < 0.8, tdtype=rng.choice(['d', 'd', 'f', 'i'])))
     return out
 
 
@@ -61,7 +63,7 @@ def build(case):
     if case['wdate']:
         f.WDATE = '2020, 01, 02'
     f.INDEPENDENT_VARIABLE = 'Start_UTC'
-    tv = f.createVariable('Start_UTC', 'd', ('POINTS',))
+    tv = f.createVariable('Start_UTC', case.get('tdtype', 'd'), ('POINTS',))
     tv[:] = np.arange(n) * 60. + 3600
     if case['iunit'] is not None:
         tv.units = case['iunit']
